@@ -275,6 +275,10 @@ def make_body(kind, variant, ops):
                     else:
                         H.claim_all_eq("unchanged_after_exception:" + k, after[k], before[k])
                 return
+            if op.label == "to_hoomd":
+                # to_hoomd centres the shape temporarily to compute its answer: afterwards the shape is where it was
+                after = _raw_state(s)
+                H.claim_all_eq("to_hoomd_restores_the_shape:vertices[%d]" % i, after["vertices"], before["vertices"])
         f = fresh(s, H)
         c1, s1 = observables(s, H)
         c2, s2 = observables(f, H)
